@@ -66,6 +66,7 @@ def run(ctx, rep):
     from . import c15
     c15.r156(ctx, Renamed(rep, to="R1.8"))
     c15.r1511(ctx, Renamed(rep, to="R1.8"))
+    c15.r1516(ctx, Renamed(rep, to="R1.8"))
     rep.rule("R1.9", "user code gets a private copy of the point: an objective that modifies its argument cannot move the point at which the constraints of the same evaluation are called (see C06 R6.4)")
     from . import c06
     c06.r64(ctx, Renamed(rep, to="R1.9"), rule="R1.9")
